@@ -450,3 +450,147 @@ fn c02_canary() {
     let r = b.make_move_new(m);
     assert!(r.castle_rights == b.castle_rights);
 }
+
+// ------------------------------------------------------------------------------------------ null move (C18)
+
+/// the contract of Board::update_pin_info (O3.1) as an executable stand-in
+pub(crate) fn upi_spec(b: &mut Board) {
+    let (c, p) = sp::s_check_pin(&to_pos(b));
+    b.checkers = BitBoard(c);
+    b.pinned = BitBoard(p);
+}
+
+// @ob id=O18.1 props=C18,C08 tier=quick kind=proof weight=light fn="Board::null_move" desc="for every placement (occupancy invariant, kings not adjacent, checkers field = attackers of the mover's king), with or without en-passant state: null_move is refused exactly when the side to move is in check (flood-fill attack spec); otherwise the result has identical placement, castle rights and hash field, the other side to move, no en-passant state, and checkers/pinned equal to the from-scratch spec of the RESULT position; the source board is untouched. The callee update_pin_info is used through its contract O3.1 (stand-in upi_spec)"
+#[kani::proof]
+#[kani::unwind(9)]
+#[kani::stub(crate::board::Board::update_pin_info, upi_spec)]
+fn c18_null_move() {
+    let b = any_board();
+    let pos = to_pos(&b);
+    kani::assume(sp::s_king(pos.king_sq(0)) & sp::bit(pos.king_sq(1)) == 0);
+    let (ch, _pin) = sp::s_check_pin(&pos);
+    kani::assume(b.checkers.0 == ch);
+    let b0 = b;
+    let r = b.null_move();
+    assert!(b == b0);
+    let in_check = sp::s_in_check(&pos, pos.stm);
+    assert!(r.is_none() == in_check);
+    if let Some(r) = r {
+        assert!(same_placement(&r, &b));
+        assert!(r.castle_rights[0] == b.castle_rights[0] && r.castle_rights[1] == b.castle_rights[1]);
+        assert!(r.hash == b.hash);
+        assert!(r.side_to_move == !b.side_to_move);
+        assert!(r.en_passant.is_none());
+        let (c2, p2) = sp::s_check_pin(&to_pos(&r));
+        assert!(r.checkers.0 == c2 && r.pinned.0 == p2);
+    }
+    kani::cover!(in_check);
+    kani::cover!(!in_check && b.en_passant.is_some());
+}
+
+// @ob id=O18.canary props=C18 tier=quick kind=canary fn="Board::null_move" desc="deliberately false: null_move keeps the en-passant square — must FAIL"
+#[kani::proof]
+#[kani::unwind(9)]
+#[kani::stub(crate::board::Board::update_pin_info, upi_spec)]
+fn c18_canary() {
+    let b = any_board();
+    if let Some(r) = b.null_move() {
+        assert!(r.en_passant == b.en_passant);
+    }
+}
+
+// ------------------------------------------------------------------------------------------ hash (C08, C09)
+
+// @ob id=O8.1 props=C08 tier=quick kind=proof fn="Board::get_hash" desc="get_hash reads nothing but the incremental hash field, the en-passant FILE, both castle rights and the side to move: two boards (any raw content, real key tables) that agree on these yield the same hash, whatever their other fields hold — with the representation invariant (hash field = XOR of the keys of the placement, kept by xor/make_move/null_move/try_from obligations) the hash is a function of the position"
+#[kani::proof]
+fn c08_get_hash_frame() {
+    let a = any_raw_board();
+    let b = any_raw_board();
+    kani::assume(a.hash == b.hash && a.side_to_move == b.side_to_move);
+    kani::assume(a.castle_rights[0] == b.castle_rights[0] && a.castle_rights[1] == b.castle_rights[1]);
+    let fa = a.en_passant.map(|s| s.get_file().to_index());
+    let fb = b.en_passant.map(|s| s.get_file().to_index());
+    kani::assume(fa == fb);
+    assert!(a.get_hash() == b.get_hash());
+}
+
+struct Rec {
+    n: usize,
+    bytes: [u8; 16],
+}
+impl std::hash::Hasher for Rec {
+    fn finish(&self) -> u64 {
+        0
+    }
+    fn write(&mut self, b: &[u8]) {
+        let mut i = 0;
+        while i < b.len() {
+            if self.n < 16 {
+                self.bytes[self.n] = b[i];
+            }
+            self.n += 1;
+            i += 1;
+        }
+    }
+}
+
+// @ob id=O8.2 props=C08 tier=quick kind=proof fn="Hash for Board" desc="the std Hash implementation feeds exactly the 8 bytes of the incremental hash field and nothing else: boards that are == feed identical bytes (Hash consistent with Eq), for every raw board"
+#[kani::proof]
+#[kani::unwind(18)]
+fn c08_hash_impl() {
+    use std::hash::Hash;
+    let a = any_raw_board();
+    let mut h = Rec { n: 0, bytes: [0; 16] };
+    a.hash(&mut h);
+    assert!(h.n == 8);
+    let le = a.hash.to_ne_bytes();
+    let mut i = 0;
+    while i < 8 {
+        assert!(h.bytes[i] == le[i]);
+        i += 1;
+    }
+}
+
+// @ob id=O8.canary props=C08 tier=quick kind=canary fn="Board::get_hash" desc="deliberately false: get_hash ignores the side to move — must FAIL"
+#[kani::proof]
+fn c08_canary() {
+    let a = any_raw_board();
+    let mut b = a;
+    b.side_to_move = !a.side_to_move;
+    assert!(a.get_hash() == b.get_hash());
+}
+
+// @ob id=O9.2 props=C09 tier=quick kind=proof fn="Board::get_hash" desc="single-component variants hash differently (real key tables): (a) one square's content differs (man added, removed, retyped or recoloured) with the hash field following the placement; (b) side to move differs (no en-passant state); (c) one side's castle rights differ; (d) en-passant file differs or is present vs absent — for every raw board and every choice of the varied component"
+#[kani::proof]
+fn c09_single_component() {
+    let a = any_raw_board();
+    let mut b = a;
+    let which: u8 = kani::any();
+    kani::assume(which < 4);
+    if which == 0 {
+        // content of one square: old = (p1,c1) or empty, new = (p2,c2) or empty, different
+        let s = any_square();
+        let (e1, e2): (bool, bool) = (kani::any(), kani::any());
+        let (p1, c1, p2, c2) = (any_piece(), any_color(), any_piece(), any_color());
+        kani::assume(!(e1 && e2));
+        kani::assume(e1 || e2 || p1 != p2 || c1 != c2);
+        let k1 = if e1 { 0 } else { Zobrist::piece(p1, s, c1) };
+        let k2 = if e2 { 0 } else { Zobrist::piece(p2, s, c2) };
+        b.hash = a.hash ^ k1 ^ k2;
+    } else if which == 1 {
+        kani::assume(a.en_passant.is_none());
+        b.side_to_move = !a.side_to_move;
+    } else if which == 2 {
+        let c = any_color();
+        let r = any_rights();
+        kani::assume(r != a.castle_rights[c.to_index()]);
+        b.castle_rights[c.to_index()] = r;
+    } else {
+        let e = any_ep();
+        let fa = a.en_passant.map(|s| s.get_file().to_index());
+        let fb = e.map(|s| s.get_file().to_index());
+        kani::assume(fa != fb);
+        b.en_passant = e;
+    }
+    assert!(a.get_hash() != b.get_hash());
+}
